@@ -396,6 +396,16 @@ RATERS = {
                        names=["feat_con_apr_sum", "feat_con_idt_sum",
                               "feat_bin_size", "feat_con_bln_slope"],
                        lda=None, tree=True),
+    # the same continuous features plus a binary exclusion criterion
+    "R_et_names_bin": dict(regressor="Extra Trees", training_set="zef18",
+                           names=["feat_con_apr_sum", "feat_con_idt_sum",
+                                  "feat_bin_size", "feat_con_bln_slope",
+                                  "feat_bin_cp_position"],
+                           lda=None, tree=True),
+    "R_et_names_con": dict(regressor="Extra Trees", training_set="zef18",
+                           names=["feat_con_apr_sum", "feat_con_idt_sum",
+                                  "feat_con_bln_slope"],
+                           lda=None, tree=True),
     "R_et_lda": dict(regressor="Extra Trees", training_set="zef18",
                      names=None, lda=True, tree=True),
     # in-memory (X, y) training set and a user directory (resolved lazily)
